@@ -421,6 +421,8 @@ def run_property(ctx, prop, fams, n_quick, n_thorough, classify=classify_default
         d17, guided = None, []
     else:
         d17 = exec_model.run_slices(ctx, prop)
+        if prop in ("C09", "C10"):
+            exec_model.run_reusable_slices(ctx)
         guided = exec_model.guided_cases(ctx, prop, 150 if ctx.tier == "thorough" else 25, d17)
     ctx.extra["tlc_guided_cases"] = len(guided)
     extra_cases = (extra_cases or []) + guided
